@@ -32,7 +32,7 @@ let pc_char fix = function
   | PSignal -> 's'
   | PUnlock | JUnlock | RUnlock | FUnlock | WUnlockExit | WUnlock1 | WUnlock2 -> 'U'
   | RBcast | FBcastPop -> 'b'
-  | FBcastPush -> 'B'
+  | FBcastPush | RBcastPush -> 'B'
   | WBcast1 | WBcast2 -> if fix then 'B' else 'S'
   | MJoin _ | FJoin _ -> 'J'
   | Done -> 'D'
@@ -40,7 +40,7 @@ let pc_char fix = function
 let pc_name = function
   | PLock (KAdd, _) -> "PLockA" | PLock (KTry, _) -> "PLockT" | PWait _ -> "PWait" | PAsleep _ -> "PAsleep" | PSignal -> "PSignal"
   | PUnlock -> "PUnlock" | JLock -> "JLock" | JWait -> "JWait" | JAsleep -> "JAsleep" | JUnlock -> "JUnlock"
-  | RLock _ -> "RLock" | RBcast -> "RBcast" | RUnlock -> "RUnlock" | MJoin _ -> "MJoin" | FLock -> "FLock" | FUnlock -> "FUnlock"
+  | RLock _ -> "RLock" | RBcast -> "RBcast" | RBcastPush -> "RBcastPush" | RUnlock -> "RUnlock" | MJoin _ -> "MJoin" | FLock -> "FLock" | FUnlock -> "FUnlock"
   | FBcastPush -> "FBcastPush" | FBcastPop -> "FBcastPop" | FJoin _ -> "FJoin" | WLock -> "WLock" | WWait -> "WWait"
   | WAsleep -> "WAsleep" | WUnlockExit -> "WUnlockExit" | WBcast1 -> "WBcast1" | WUnlock1 -> "WUnlock1" | WLock2 -> "WLock2"
   | WBcast2 -> "WBcast2" | WUnlock2 -> "WUnlock2" | Done -> "Done"
